@@ -113,7 +113,7 @@ def boundary_corpus():
     I = lambda n: ['int', n]
     T = lambda s: ['str', s]
     std = lambda *a: ['std'] + list(a)
-    tzs = [None, ['utc'], ['fixed', 0, 0, 'Z'], ['fixed', 3600, 0, None], ['fixed', -86399, 999999, None], ['fixed', 19800, 0, 'IST'],
+    tzs = [None, ['utc'], ['fixed', 0, 1, None], ['fixed', 0, 999999, None], ['fixed', -1, 999999, None], ['fixed', 0, 0, 'Z'], ['fixed', 3600, 0, None], ['fixed', -86399, 999999, None], ['fixed', 19800, 0, 'IST'],
            ['pytz_utc'], ['pytz_fixed', 0], ['pytz_fixed', -300], ['pytz_fixed', 1439],
            ['pytz_localized', 'Europe/Helsinki', [2021, 7, 1, 12, 0]], ['pytz_localized', 'America/New_York', [1999, 12, 31, 3, 30]]]
     tzs += [['pytz', z] for z in stdvals.PYTZ_ZONES]
